@@ -45,7 +45,7 @@ def run(ck, tier):
     _writers(ck, p)
     ck.rule("R-C17-verbatim", "the lint's span is an offset into the text the caller holds: every Document constructor that takes a text builds its character vector from it by chars().collect() and copies only - no normalising step (line endings folded, characters dropped or replaced), behind which the reported suffix span would sit one character early")
     from . import c08
-    c08.verbatim_source(ck, p, "R-C17-verbatim", lambda g: g.name.startswith("harper_core::document::"), "Document constructors that take a text", 2)
+    c08.verbatim_source(ck, p, "R-C17-verbatim", lambda g: g.name.startswith("harper_core::document::"), "Document constructors that take a text", 1)
     from . import c02, c05
     ck.rule("R-C17-annotate", "the suffix found for a number is stored on that number's token: condense_number_suffixes does not address self.tokens after its removal with positions counted before it (rule instance of R-C02-stale after-removal) - otherwise only the first ordinal of a document keeps its suffix and a wrong suffix later in the text is never reported")
     c02.stale_use(c05._Sub(ck, "R-C17-annotate", ""), p, "R-C17-annotate")
